@@ -80,6 +80,15 @@ func Unregist(s *Stream) {
 	s.Close()
 }
 
+// deregister removes s from the registry if the registry still holds it
+func deregister(s *Stream) {
+	streamsLock.Lock()
+	if si, ok := streams.Load(s.path); ok && si.(*Stream) == s {
+		streams.Delete(s.path)
+	}
+	streamsLock.Unlock()
+}
+
 // UnregistAll 取消全部注册的流
 func UnregistAll() {
 	streams.Range(func(key, value interface{}) bool {
